@@ -181,7 +181,11 @@ func solveFile(file string, timeoutMs int, agree bool) SolveResult {
 	}
 	if !agree {
 		// staged: z3-new alone first (cheap), then the other two in parallel.
-		st, out, ms := runOne(context.Background(), solvers[0], file, timeoutMs)
+		first := timeoutMs / 3
+		if first < 3000 {
+			first = timeoutMs
+		}
+		st, out, ms := runOne(context.Background(), solvers[0], file, first)
 		if st == "unsat" || st == "sat" {
 			return SolveResult{Status: st, Solver: solvers[0].name, Ms: ms, Output: out}
 		}
